@@ -18,6 +18,7 @@ Step(e) ==
     \/ e.op = "acq" /\ e.ok  /\ AcquireOk(e.id, e.m, e.kind, e.ver, e.tracked, e.tk)
     \/ e.op = "acq" /\ ~e.ok /\ ~Has(e, "must") /\ AcquireRefused(e.m, e.kind)
     \/ e.op = "acq" /\ ~e.ok /\ Has(e, "must")  /\ AcquireRefusedAtQuiescence(e.m, e.kind)
+    \/ e.op = "neutral"  /\ Neutral
     \/ e.op = "unwind"   /\ Unwind(e.ids)
     \/ e.op = "obs_quiescent" /\ ObserveQuiescent(e.m, e.min, e.cur, e.ar, e.aw)
     \/ e.op = "acq_cached" /\ HandOutCached(e.id, e.m, e.kind, e.ver, e.tracked, e.tk)
